@@ -22,8 +22,8 @@ from .z3env import REPO_SRC, ensure_repo_first
 VERIF = os.path.dirname(os.path.dirname(os.path.abspath(__file__)))
 EVID = os.environ.get("UJVC_EVID") or os.path.join(VERIF, "evidence")
 CONTRACT_MODULES = [
-    "retry", "times", "filestore", "stores", "engine", "prepare", "coordinator", "queues", "runphys", "runpath", "rewrite", "stale", "pruning", "system", "plumbing", "tracebacks", "progress", "frames", "kahn", "lemmas", "queues", "kahn", "graphs", "rewrite", "stale",
-    "plumbing", "runpath", "observers", "trace", "frames", "progress", "lemmas", "history",
+    "retry", "times", "filestore", "stores", "engine", "prepare", "coordinator", "queues", "runphys", "runpath", "rewrite", "stale", "pruning", "system", "plumbing",
+    "argnodes", "gather", "greedy", "tracebacks", "progress", "frames", "kahn", "lemmas", "history", "render",
 ]
 
 
